@@ -190,13 +190,6 @@ impl Val {
     pub fn to_f64(self) -> f64 {
         ldexp(self.m.hi, self.e) + ldexp(self.m.lo, self.e)
     }
-    pub fn is_zero(self) -> bool {
-        self.m.is_zero()
-    }
-    /// log2 of the value (for range classification only)
-    pub fn log2(self) -> f64 {
-        self.m.hi.log2() + self.e as f64
-    }
 }
 
 /// The exact coordinate differences x - y, rescaled so that the largest lies in [1,2).
